@@ -866,3 +866,43 @@ Proof.
 Qed.
 
 End Idempotent.
+
+(* ================================================================== the account / amount separator *)
+Section Layout.
+Local Open Scope Z_scope.
+
+Lemma fold_max_ge_init l : forall a, a <= fold_left Z.max l a.
+Proof. induction l as [|x l IH]; intros a; cbn [fold_left]; [lia|]. specialize (IH (Z.max a x)). lia. Qed.
+
+Lemma fold_max_ge_in l : forall a x, In x l -> x <= fold_left Z.max l a.
+Proof.
+  induction l as [|y l IH]; intros a x; cbn [fold_left In]; [intros []|].
+  intros [->|H]; [pose proof (fold_max_ge_init l (Z.max a x)); lia | apply IH; exact H].
+Qed.
+
+Lemma account_width_covers names n : In n names -> n <= account_width names.
+Proof. apply fold_max_ge_in. Qed.
+
+Lemma account_width_min names : 36 <= account_width names.
+Proof. apply fold_max_ge_init. Qed.
+
+(* the journal reader ends an account name at two blanks (or a tab): print always leaves at least
+   two blanks in front of an amount, whatever the lengths of the account names and of the amount *)
+Theorem separator_at_least_two names n amt_len :
+  In n names -> 0 < amt_len -> 2 <= sep_blanks (account_width names) n amt_len.
+Proof.
+  intros Hn Ha. pose proof (account_width_covers names n Hn) as Hw. unfold sep_blanks.
+  replace (amt_len =? 0) with false by (symmetry; apply Z.eqb_neq; lia).
+  destruct (Z.ltb_spec (account_width names - n + Z.max 0 (12 - amt_len)) 2); lia.
+Qed.
+
+(* and exactly the padding up to the two columns when there is room *)
+Theorem separator_is_column_padding names n amt_len :
+  In n names -> 0 < amt_len -> 2 <= account_width names - n + Z.max 0 (12 - amt_len) ->
+  sep_blanks (account_width names) n amt_len = account_width names - n + Z.max 0 (12 - amt_len).
+Proof.
+  intros Hn Ha H. unfold sep_blanks. replace (amt_len =? 0) with false by (symmetry; apply Z.eqb_neq; lia).
+  destruct (Z.ltb_spec (account_width names - n + Z.max 0 (12 - amt_len)) 2); lia.
+Qed.
+
+End Layout.
